@@ -65,6 +65,13 @@ ArgLists0 ==
                                                  TList(TObj([a |-> TNum])), TMap(TNum), TTup(<<TNum, TStr>>)})}
                          \cup {<<SeqV(TTup(<<TSet(TStr), TList(TList(TNum)), TNum>>), <<SeqV(TSet(TStr), <<StrV(<<"a">>)>>), SeqV(TList(TList(TNum)), <<SeqV(TList(TNum), <<NumV(4), NumV(8)>>), SeqV(TList(TNum), <<>>)>>), NumV(0)>>)>>,
                                <<SeqV(TList(TSet(TList(TNum))), <<SeqV(TSet(TList(TNum)), <<SeqV(TList(TNum), <<NumV(4)>>)>>)>>)>>}
+    [] Fn = "setproduct" ->
+          LET P == {SeqV(TList(TStr), <<StrV(<<"a">>), StrV(<<"b">>)>>), SeqV(TList(TStr), <<StrV(<<"c">>)>>), SeqV(TList(TNum), <<NumV(0), NumV(4)>>), SeqV(TList(TNum), <<>>),
+                    SeqV(TSet(TStr), <<StrV(<<"a">>), StrV(<<"b">>)>>), SeqV(TList(TBool), <<BoolV(TRUE), BoolV(FALSE)>>), SeqV(TList(TStr), <<StrV(<<"b">>), StrV(<<"a">>), StrV(<<"c">>)>>)}
+              L == {p \in P : p.ty.k = "list" /\ Len(Elems(p)) > 0}
+          IN {<<x, y>> : x \in P, y \in P} \cup {<<x, y, z>> : x \in L, y \in P, z \in L}
+             \cup {<<w, x, y, z>> : w \in TakeN(L, 3), x \in TakeN(L, 3), y \in TakeN(P, 5), z \in L}
+             \cup {<<v, w, x, y, z>> : v \in TakeN(L, 2), w \in TakeN(L, 2), x \in TakeN(L, 2), y \in TakeN(L, 3), z \in TakeN(L, 3)}
     [] Fn = "sethaselement" -> UNION {{<<s, x>> : s \in Vals(t, W), x \in Members_(t.e, W)} : t \in ST}
     [] OTHER -> {}
 ArgLists == ArgLists0 \cup
